@@ -572,6 +572,12 @@ class Engine:
             else:
                 r = self.equals(a, b, st, node)
             return r if isinstance(op, ast.Eq) else z3.Not(r)
+        # an optional number in an ordering comparison (`p.exitcode > 0`): TypeError when it is None - a safety obligation under the guards of the
+        # enclosing short-circuit (`x is None or x > 0`) - and the comparison of its value otherwise
+        if isinstance(a.ty, OptT) and a.ty.kind == "none" and isinstance(a.ty.inner, (IntT, RealT)):
+            a = self.coerce(a, a.ty.inner, st, node, "left operand of an ordering comparison")
+        if isinstance(b.ty, OptT) and b.ty.kind == "none" and isinstance(b.ty.inner, (IntT, RealT)):
+            b = self.coerce(b, b.ty.inner, st, node, "right operand of an ordering comparison")
         if isinstance(a.ty, (RealT, IntT)) and isinstance(b.ty, (RealT, IntT)) and (isinstance(a.ty, RealT) or isinstance(b.ty, RealT)):
             a = Val(a.t if isinstance(a.ty, RealT) else z3.ToReal(a.t), REAL)
             b = Val(b.t if isinstance(b.ty, RealT) else z3.ToReal(b.t), REAL)
